@@ -814,10 +814,6 @@ pub fn judge_bind(c: &BindCase) -> Vec<(String, String)> {
     match (&out.result, &want) {
         (Err(e), _) if e.stage == Stage::Panic => bad.push(("C11/panic".into(), e.msg.clone())),
         (Ok(_), None) => bad.push(("C11/accepted-unbound-name".into(), format!("`{name}` has no candidate in scope of `{cpath}` but the build succeeded"))),
-        // a set in which some module defines an item named like a predefined type cannot be
-        // translated (the item shadows the primitive inside its generated module, see DESIGN §8):
-        // rejecting it is right; if it is accepted, the binding is judged like any other
-        (Err(_), Some(_)) if c.builtin_name => {}
         (Err(e), Some(b)) => bad.push(("C11/rejected-bound-name".into(), format!("`{name}` binds to `{}` but the build failed: {}", b.path(), e.msg))),
         (Err(_), None) => {}
         (Ok(ok), Some(b)) => {
